@@ -219,6 +219,48 @@ theorem nodup_descendantsV (es : List Edge) (v : Nat) : (descendantsV es v).node
   rw [hd]
   exact (List.reverse_perm l).nodup_iff.mpr (List.nodup_append.mp hnd).1
 
+theorem length_preds_le (es : List Edge) (v : Nat) : (preds es v).length ≤ es.length := by
+  simp only [preds, List.length_map]; exact List.length_filter_le _ _
+
+/-- `ancestorSetV` unfolded -/
+theorem ancestorSetV_spec (es : List Edge) (v : Nat) :
+    ∃ vis s, ancestorSetV es v = ⟨vis.reverse, s + 1⟩ ∧
+      DfsInv (flipEdges es) (fun _ => true) (preds es v) [] vis s := by
+  have hlen := length_preds_le es v
+  have hf := dfs_fuel_enough (flipEdges es) (fun _ => true) (2 * es.length) (preds es v) [] (by
+    rw [rem_nil, length_flipEdges]; omega)
+  cases h : dfs (flipEdges es) (fun _ => true) (2 * es.length) (preds es v) [] with
+  | done vis s =>
+    exact ⟨vis, s, by simp [ancestorSetV, h], dfs_done_inv _ _ _ _ _ _ _ h⟩
+  | bad c s => have := (dfs_bad_inv _ _ _ _ _ _ _ h).1; simp at this
+  | fuel => exact absurd h hf
+
+/-- the ancestor set is the set of transitive dependencies (`v` itself only if it lies on a cycle) -/
+theorem mem_ancestorSetV {es : List Edge} {v x : Nat} :
+    x ∈ (ancestorSetV es v).nodes ↔ ReachPlus es x v := by
+  obtain ⟨vis, s, hd, I⟩ := ancestorSetV_spec es v
+  rw [hd]; simp only [List.mem_reverse]
+  constructor
+  · intro hx
+    rcases I.sound x hx with h1 | ⟨t, ht, hr⟩
+    · simp at h1
+    · exact reachPlus_flip.mp ⟨t, mem_flipEdges.mpr (mem_preds.mp ht), hr⟩
+  · intro hp
+    obtain ⟨y, e, hr⟩ := reachPlus_flip.mpr hp
+    have hc : ∀ u ∈ vis, ∀ w ∈ succs (flipEdges es) u, w ∈ vis :=
+      fun u hu w hw => I.closed u hu (by simp) w hw
+    have hy : y ∈ vis := I.todoIn y (mem_preds.mpr (mem_flipEdges.mp e))
+    exact reach_closed hc hy hr
+
+theorem ancestorSetV_cost_le (es : List Edge) (v : Nat) :
+    (ancestorSetV es v).cost ≤ 1 + (preds es v).length + es.length := by
+  obtain ⟨vis, s, hd, I⟩ := ancestorSetV_spec es v
+  rw [hd]
+  have h1 := I.steps
+  rw [rem_nil, length_flipEdges] at h1
+  show s + 1 ≤ 1 + (preds es v).length + es.length
+  omega
+
 theorem reach_lt {es : List Edge} {n : Nat} (hwf : ∀ e ∈ es, e.1 < n ∧ e.2 < n) {t x : Nat}
     (ht : t < n) (hr : Reach es t x) : x < n := by
   induction hr with
